@@ -20,11 +20,14 @@ NATIVE = {
     "C08": [("gfi_battery", "vmap_int_axes")], "C09": [("mcmc_noise", "mala"), ("mcmc_noise", "hmc")], "C11": [("adev_native", "parallel"), ("adev_native", "geometric")],
     "C12": [("smc_resample",)], "C13": [("distributions_native",)], "C15": [("adev_native", "estimate")], "C16": [("filter_vs_spec",), ("merge_vs_spec",)],
     "C20": [("state_space_native", "hmm"), ("state_space_native", "kalman")],
+    "C06": [("seed_sites",), ("seed_context",)], "C07": [("seed_sites",)],
 }
 
 
 # property-level native batteries (full stack through the JAX compatibility shims, native/_compat.py)
 STACK = {"C01", "C02", "C03", "C04", "C05", "C08", "C16"}
+# further public-interface batteries with an oracle independent of the implementation
+PUBLIC = {"C06": [("seed_sites",), ("seed_context",)], "C07": [("seed_sites",)], "C12": [("smc_resample",)], "C10": [("smc_resample",)], "C20": [("state_space_native", "kalman"), ("state_space_native", "hmm")]}
 
 
 def property_level_native(pid):
@@ -36,6 +39,7 @@ def property_level_native(pid):
     # rewrites (a momentum draw written with array parameters made one fail: a false alarm) - they are cross-checks of
     # the thorough tier on the unchanged tree, never a verdict on a changed one
     specs = [("stack_battery", "all")] if pid in STACK else []
+    specs += PUBLIC.get(pid, [])
     for spec in specs:
         r = run_native(*spec, timeout=1800)
         r["script"] = list(spec)
